@@ -17,6 +17,7 @@ import time
 HERE = os.path.dirname(os.path.abspath(__file__))
 VERIF = os.path.dirname(HERE)
 sys.path.insert(0, HERE)
+sys.path.insert(0, os.path.join(VERIF, "contracts"))
 import extract  # noqa: E402
 
 DEFAULT_CHECKS = ["--bounds-check", "--pointer-check", "--div-by-zero-check", "--signed-overflow-check",
@@ -133,7 +134,7 @@ def run_job(unit, job, cfile, scratch, canary=False):
     b_gb = os.path.join(scratch, safe + ".b.gb")
     res = {"unit": unit["id"], "job": job["name"], "canary": canary, "kind": job.get("kind", "proved"),
            "bound": job.get("bound"), "status": "undecided", "props": [], "failed": [], "secs": 0.0, "detail": "",
-           "backend": ("cbmc built-in SAT (minisat2)" if canary else (job.get("solver") or "kissat") )}
+           "backend": job.get("solver") or "kissat"}
     timeout = job.get("timeout", 120)
     defs = ["-D%s=%s" % (k, v) for k, v in job.get("defines", {}).items()]
     if canary:
@@ -153,7 +154,11 @@ def run_job(unit, job, cfile, scratch, canary=False):
         cmd = ["goto-instrument", "--dfcc", job["entry"]]
         if job.get("enforce"):
             cmd += ["--enforce-contract", job["enforce"]]
+        ctext = open(cfile).read()
         for r in job.get("replace", []):
+            # a callee that is declared but no longer called anywhere (e.g. the call was edited away in /repo) cannot be replaced
+            if len(re.findall(r"\b%s\s*\(" % re.escape(r), ctext)) < 2:
+                continue
             cmd += ["--replace-call-with-contract", r]
         if job.get("loops"):
             cmd += ["--apply-loop-contracts"]
@@ -177,9 +182,7 @@ def run_job(unit, job, cfile, scratch, canary=False):
     if job.get("object_bits"):
         cmd += ["--object-bits", str(job["object_bits"])]
     solver = job.get("solver", "kissat")
-    if canary:
-        pass
-    elif solver == "kissat":
+    if solver == "kissat":
         cmd += ["--external-sat-solver", "kissat"]
     elif solver == "cvc5":
         cmd += ["--cvc5"]
